@@ -1464,6 +1464,35 @@ struct SocksEngine : Engine
 			}
 			return p;
 		}
+		if (cls == 0 && rng.chance(0.04))
+		{
+			// three UDP associations: the first one ends (its client leaves) while the second lives on, then the third is
+			// made - whatever the proxy does with relay ports, the third works like the first
+			p.cfg["flags"] = 0;
+			for (int i = 0; i < 3; ++i)
+			{
+				Op o;
+				o.op = "conn";
+				o.a = 0 + 2 * 2; // version 5, UDP ASSOCIATE
+				o.b = 8;
+				o.c = rng.chance(0.5) ? 0 : (int64_t(rng.next() >> 2) | 1);
+				o.at = i == 2 ? 40000000000LL : int64_t(i) * 1000;
+				p.ops.push_back(o);
+			}
+			{ Op o; o.op = "close"; o.a = 0; o.b = 0; o.d = 1; o.at = 20000000000LL; p.ops.push_back(o); }
+			for (int i = 0; i < 6; ++i)
+			{
+				Op o;
+				o.op = "ud";
+				o.a = int64_t(1 + (i % 2)); // second and third association
+				o.b = int64_t(rng.below(48));
+				o.c = rng.pick(std::vector<int64_t>{1, 100, 1000, 1390});
+				o.d = 8;
+				o.at = rng.logu(1000000, 400000000);
+				p.ops.push_back(o);
+			}
+			return p;
+		}
 		if (cls == 0 && rng.chance(0.03))
 		{
 			// a long one-way transfer through a proxy whose outgoing link is a small tail-drop queue (payload towards the target
